@@ -599,6 +599,8 @@ def ref_models(spec_ast, order, limit=20000):
                         groups.append(frozenset(adm))
                 allowed = set().union(*groups) if groups else set()
                 allowed = sorted(allowed)
+                if len(allowed) > 12 or len(models) * (2 ** len(allowed)) > 400000:
+                    return None          # too many candidates for the enumeration: undecided
                 for k in range(len(allowed) + 1):
                     for pick in itertools.combinations(allowed, k):
                         P = set(pick)
